@@ -124,6 +124,11 @@ def cases():
         ("other_than_self", "lambda this: True", ("create", "ValueError")),
         ("two_others", "lambda a, b: True", ("create", "ValueError")),
         ("coroutine_function", "acond", ("create", "ValueError")),
+        ("only_var_positional", "lambda *args: True", ("create", "ValueError")),
+        ("self_and_var_positional", "lambda self, *others: True", ("create", "ValueError")),
+        ("self_and_var_keyword", "lambda self, **kw: True", ("create", "ValueError")),
+        ("only_var_keyword", "lambda **kw: True", ("create", "ValueError")),
+        ("self_and_mandatory_keyword_only", "lambda self, *, z: True", ("create", "ValueError")),
         ("self_ok", "lambda self: True", ("ok",)),
         ("no_args_ok", "lambda: True", ("ok",)),
         ("self_and_default_ok", "lambda self, y=1: True", ("ok",)),
